@@ -20,6 +20,8 @@ RULE = ("thresholds: every sorted sub-list-with-repeats of {0,1/4,1/2,3/4,1} of 
         "counts {1,2,3,4,5,7}, invalid ones (unsorted, outside [0,1], empty); scores on the same grid (so they sit exactly on, "
         "below the first and above the last threshold) plus 1/8-offsets, -1/4 and 5/4 in the random part; all 0/1 label sets; "
         "both optimisation modes; n <= 3 exhaustive for the binary curve (quick: n <= 2 exhaustive + 60 inputs of size 3 per threshold list), random n up to 128; "
+        "class-extra stream: float64 scores a hair below thresholds, caller-owned threshold tensors, bfloat16/float16 scores around float32 "
+        "thresholds their dtype cannot represent (all six binary binned forms vs per-threshold counting on the exact values); "
         "non-trivial = distinct (function, parameters, input) with at least one sample and one threshold")
 MODELLED = ["IEEE rounding of the final float32/float64 divisions and of the Riemann/trapezoid sums (compared with tolerance 2e-5 / 1e-9)",
             "torch.linspace float32 values are taken from torch and passed to the model as exact rationals"]
@@ -786,6 +788,8 @@ def class_extra_verdict(kind: str, name: str, seed: int):
     "float64-below-threshold": float64 scores a hair (factor 1 − 2^-30) below grid thresholds — they belong to the bucket
         BELOW the threshold; a class that buffers them in the thresholds' float32 lands them ON it.  The class result must
         equal the functional on the same data and the exact metric of the floored scores.
+    "lowprec-scores": bfloat16 / float16 scores around float32 thresholds that the low dtype cannot represent; every binary binned
+        form (functional and class) must equal per-threshold counting on the exact values.
     "threshold-tensor-owned": the three binned PR-curve classes take a COPY of a threshold tensor; the caller refreshing its
         own tensor between updates must not move the metric's thresholds (twin built from an untouched copy)."""
     import torcheval.metrics as M
@@ -821,6 +825,46 @@ def class_extra_verdict(kind: str, name: str, seed: int):
                 return (f"C06|{name}|float64-scores-below-threshold|differs-from-exact-on-floored-scores",
                         f"{name} gives {got.tolist()} where the exact metric of the scores rounded down to the thresholds is {e0}")
         return None
+    if kind == "lowprec-scores":
+        # bfloat16 / float16 scores against float32 thresholds that are NOT representable in the scores' dtype (0.1, 0.3, 0.7, 0.9):
+        # the comparison `score >= threshold` is between the exact values (type promotion to float32), so the low-precision image of
+        # a threshold lies strictly on one side of it.  Any form that rounds the thresholds to the scores' dtype (or the scores to a
+        # coarser grid) moves those samples across the bucket boundary.  Expected: per-threshold counting on the exact values (float64).
+        dt = (torch.bfloat16, torch.float16)[seed % 2]
+        thr = [0.0, 0.1, 0.3, 0.7, 0.9, 1.0]
+        t32 = torch.tensor(thr, dtype=torch.float32)
+        img = t32[1:5].to(dt)                                         # the images of the inexact thresholds
+        one_ulp = torch.nextafter(img.float(), torch.tensor(2.0)).to(dt)   # ≥ image (same or the next value of the low dtype)
+        pool = torch.cat([img, one_ulp, torch.tensor([0.0, 0.5, 1.0, 0.2, 0.8]).to(dt)])
+        n = 24
+        x = pool[torch.randint(0, len(pool), (n,), generator=g)]
+        y = torch.randint(0, 2, (n,), generator=g); y[0] = 1; y[1] = 0
+        xd, td = x.double(), t32.double()
+        pred = xd[:, None] >= td[None, :]
+        pos = (y == 1)[:, None]
+        tp, fp, fn_ = (pred & pos).sum(0).double(), (pred & ~pos).sum(0).double(), (~pred & pos).sum(0).double()
+        prec = torch.cat([torch.nan_to_num(tp / (tp + fp), nan=1.0), torch.ones(1, dtype=torch.float64)])
+        rec = torch.cat([tp / (tp + fn_), torch.zeros(1, dtype=torch.float64)])
+        if name.endswith("AUROC") or name.endswith("auroc"):
+            ctp = torch.cat([torch.zeros(1, dtype=torch.float64), tp.flip(0)]); cfp = torch.cat([torch.zeros(1, dtype=torch.float64), fp.flip(0)])
+            factor = ctp[-1] * cfp[-1]
+            exp = torch.tensor([0.5], dtype=torch.float64) if factor == 0 else (((cfp[1:] - cfp[:-1]) * (ctp[1:] + ctp[:-1]) / 2).sum() / factor).reshape(1)
+        elif name.lower().endswith("auprc"):
+            exp = (-((rec[1:] - rec[:-1]) * prec[:-1]).sum()).reshape(1)
+        else:
+            exp = torch.cat([prec, rec])
+        if name[0].isupper():
+            m = getattr(M, name)(threshold=thr); m.update(x[:9], y[:9]); m.update(x[9:], y[9:]); out = m.compute()
+        else:
+            out = getattr(F, name)(x, y, threshold=thr)
+        if name.lower().endswith("curve"):
+            got = torch.cat([out[0].reshape(-1).double(), out[1].reshape(-1).double()])
+        else:
+            got = first(out).reshape(-1).double()
+        if got.shape != exp.shape or not torch.allclose(got, exp, rtol=0, atol=1e-5, equal_nan=True):
+            return (f"C06|{name}|{str(dt).split('.')[-1]}-scores-vs-inexact-thresholds|differs-from-per-threshold-counting",
+                    f"{name} on {str(dt).split('.')[-1]} scores {x.float().tolist()} targets {y.tolist()} thresholds {thr} gives {got.tolist()} where counting score >= threshold on the exact values gives {exp.tolist()}")
+        return None
     if kind == "threshold-tensor-owned":
         cls = getattr(M, name)
         kw = {"num_classes": 3} if name.startswith("Multiclass") else ({"num_labels": 3} if name.startswith("Multilabel") else {})
@@ -849,7 +893,9 @@ def class_extra_verdict(kind: str, name: str, seed: int):
 
 
 CLASS_EXTRA = ([("float64-below-threshold", n) for n in ("BinaryBinnedAUROC", "BinaryBinnedAUPRC", "BinaryBinnedPrecisionRecallCurve")]
-               + [("threshold-tensor-owned", n) for n in ("BinaryBinnedPrecisionRecallCurve", "MulticlassBinnedPrecisionRecallCurve", "MultilabelBinnedPrecisionRecallCurve")])
+               + [("threshold-tensor-owned", n) for n in ("BinaryBinnedPrecisionRecallCurve", "MulticlassBinnedPrecisionRecallCurve", "MultilabelBinnedPrecisionRecallCurve")]
+               + [("lowprec-scores", n) for n in ("binary_binned_auroc", "binary_binned_auprc", "binary_binned_precision_recall_curve",
+                                                  "BinaryBinnedAUROC", "BinaryBinnedAUPRC", "BinaryBinnedPrecisionRecallCurve")])
 
 
 def class_extra_stream(rep: Report):
